@@ -442,13 +442,13 @@ def run(ctx):
         ctx.extra["orbits"].append({"spec": sp, "period": r.T, "lambda_u": r.lam_u, "lambda_s": r.lam_s, "closure": r.closure})
     n = ctx.scale(8, 12 * len(pool))
     methods = _METHODS
-    if ctx.tier == "quick":   # each (method, order, time direction) costs seconds of JIT: two non-default schemes per shard
+    if ctx.tier == "quick":   # each (method, order, time direction) costs seconds of JIT: one non-default scheme per shard
         alt = [("adaptive", 5), ("fixed", 4), ("fixed", 6), ("fixed", 8)]
-        methods = [("adaptive", 8)] * 3 + [alt[ctx.shard % 4], alt[(ctx.shard + 1 + ctx.seed) % 4]]
+        methods = [("adaptive", 8)] * 2 + [alt[(ctx.shard + ctx.seed) % 4]] * 2
     # no Hypothesis shrink pass: every evaluation costs seconds (the hunt re-runs the whole generation) and the stored
     # payload is already one seed of one manifold (only_seed)
     explore(ctx, "manifolds", manifold_case(pool, methods), eval_case, n, shrink=False)
-    ctx.extra.setdefault("tightest_direction_margins", [])   # [sine/tol, branch, t/T, displacement]
+    ctx.extra.setdefault("tightest_direction_margins", [])   # [sine/tol at the first passing candidate, branch, t/T, displacement]
     for m in sorted(_margins, key=lambda t: -t[0])[:2]:
         ctx.extra["tightest_direction_margins"].append(list(m))
 
